@@ -39,7 +39,7 @@ def label_to_op(name, args):
     raise ValueError(name)
 
 
-TAIL = ["resume 1", "run A A A A", "check 1"]
+TAIL = ["resume 1", "run", "run A A A A", "check 1"]     # (the first run consumes a pending interrupt)
 
 
 def key_of(ops, step):
